@@ -415,3 +415,35 @@ func ZZ_C01_PDR() { zzC01History(zzPDR, zzD01(), true) }
 
 // PDRs referencing URRs: one step shorter (the shard doubles the branching per rule IE)
 func ZZ_C01_PDRURR() { zzC01History(zzMixed, zzD01()-1+zzTier()*0, true) }
+
+// A Session Modification Request may carry the Node ID of the control-plane node - the rule is "a new
+// SMF taking over" but nothing stops the owner from naming itself. That is no change of ownership:
+// the association is as before, and the node's next Association Setup still ends its sessions and
+// withdraws every one of their rules (and a request of the session is still found).
+func zzC01OwnNodeID() {
+	w := zzNewWorld(zzFAR, false)
+	w.g.assoc[0] = true
+	seq := w.nextSeq()
+	zzDeliver(w.s, zzAssocReq(seq, zzNodeA), zzAddrA, seq)
+	seq = w.nextSeq()
+	far := uint32(1 + nondetChoice("far", 2))
+	zzDeliver(w.s, zzEstReq(seq, ie.NewNodeID(zzNodeA, "", ""), ie.NewFSEID(nondetU64("cpseid"), []byte{127, 0, 0, 1}, nil),
+		ie.NewCreateFAR(ie.NewFARID(far), ie.NewApplyAction(2))), zzAddrA, seq)
+	zzAssert("C01.own-nodeid.established", w.dp.rulesOf(1) == 1)
+	for i := 0; i < 1+nondetChoice("repeats", 2); i++ {
+		seq = w.nextSeq()
+		zzDeliver(w.s, zzModReq(1, seq, ie.NewNodeID(zzNodeA, "", ""), ie.NewCreateFAR(ie.NewFARID(far+2), ie.NewApplyAction(2))), zzAddrA, seq)
+	}
+	zzAssert("C01.own-nodeid.association-kept", len(w.s.rnodes) == 1)
+	_, err := w.s.lnode.Sess(1)
+	zzAssert("C01.own-nodeid.session-kept", err == nil && w.dp.rulesOf(1) == 2)
+	seq = w.nextSeq()
+	zzDeliver(w.s, zzAssocReq(seq, zzNodeA), zzAddrA, seq)
+	_, err = w.s.lnode.Sess(1)
+	zzAssert("C01.own-nodeid.reassociation-ends-session", err != nil)
+	zzAssert("C01.own-nodeid.reassociation-withdraws-all-rules", w.dp.rulesOf(1) == 0)
+	zzAssert("C01.own-nodeid.one-association", len(w.s.rnodes) == 1)
+	zzCover("C01.own-nodeid.done")
+}
+
+func ZZ_C01_OwnNodeID() { zzC01OwnNodeID() }
